@@ -138,7 +138,7 @@ def rand_tree(rng, depth, budget):
         if budget[0] <= 0:
             break
         budget[0] -= 1
-        k = rng.choice(["a", "b", "c", "d1", "e.txt", "f"])
+        k = rng.choice(["a", "b", "c", "d1", "e.txt", "f", "ab", "a.b", "a-b", "a b", "A", "ä", "a0", "10", "9"])
         r = rng.random()
         if r < 0.35 and depth > 0:
             t[k] = rand_tree(rng, depth - 1, budget)
@@ -162,7 +162,7 @@ def edit_tree(rng, t):
         r = rng.random()
         keys = list(cur)
         if r < 0.3 or not keys:
-            cur[rng.choice(["n1", "n2", "a", "b"])] = rng.choice(["sha256:ff", {}, {"q": "sha256:01"}, "symlink:a"])
+            cur[rng.choice(["n1", "n2", "a", "b", "a.b", "ab", "A"])] = rng.choice(["sha256:ff", {}, {"q": "sha256:01"}, "symlink:a", {"q": {"r": {"s": "sha256:03"}}}])
         elif r < 0.6:
             del cur[rng.choice(keys)]
         else:
@@ -200,7 +200,7 @@ def real_case(rng, acc, d):
     for _ in range(rng.randint(1, 5)):
         r = rng.random()
         files = [p for p in allp if p.is_file() and not p.is_symlink() and p.exists()]
-        dirs = [p for p in allp if p.is_dir() and p.exists()] + [base]
+        dirs = [p for p in allp if p.is_dir() and not p.is_symlink() and p.exists()] + [base]
         if r < 0.3 and files:
             rng.choice(files).write_bytes(os.urandom(4))
         elif r < 0.5 and files:
@@ -215,7 +215,7 @@ def real_case(rng, acc, d):
             q = rng.choice(dirs) / f"nd{rng.randint(0, 9)}"
             q.mkdir(exist_ok=True)
         else:
-            cand = [p for p in dirs if p != base and p.exists()]
+            cand = [p for p in dirs if p != base and p.exists() and not p.is_symlink()]
             if cand:
                 p = rng.choice(cand)
                 shutil.rmtree(p)
